@@ -341,10 +341,10 @@ package templ
 //@   ensures implies(result1 == nil, failedDuring == old(failedDuring)) && implies(result1 != nil, failedDuring) && implies(old(failedDuring), failedDuring)
 
 //@ func cacheStrings [C14]
-//@   requires held(watchStateMutex)
+//@   requires xheld(watchStateMutex)
 //@   assume entry: watchModeCache != nil
 //@   modifies failedDuring
-//@   ensures held(watchStateMutex)
+//@   ensures xheld(watchStateMutex)
 //@   ensures implies(result1 == nil, failedDuring == old(failedDuring)) && implies(result1 != nil, failedDuring) && implies(old(failedDuring), failedDuring)
 
 //@ func WriteWatchModeString [C14]
